@@ -176,6 +176,8 @@ class CompGen:
         kind = rnd.random()
         if kind < 0.28:
             return self.scalar_composition(n)
+        if kind < 0.40:
+            return self.untyped_ref_composition()
         # object compositions
         used = {}   # property name -> a schema seen for it
         oneof_done = False
@@ -344,6 +346,54 @@ class CompGen:
             ops.append(o2)
         rnd.shuffle(ops)
         return {"defs": {}, "branches": ops, "tags": sorted(self.tags)}
+
+    UNTYPED_DEFS = [
+        ("props", {"properties": {"alpha": {"type": "string"}}}),
+        ("props-required", {"properties": {"alpha": {"type": "string"}, "beta": {"type": "integer"}}, "required": ["alpha"]}),
+        ("required", {"required": ["alpha"]}),
+        ("ap-schema", {"additionalProperties": {"type": "string"}}),
+        ("ap-false", {"properties": {"alpha": {"type": "string"}}, "additionalProperties": False}),
+        ("enum", {"enum": ["red", "green"]}),
+        ("bounds", {"minProperties": 1}),
+        ("bounds2", {"maxProperties": 2}),
+    ]
+    TYPED_DEFS = [("Str", {"type": "string"}), ("Arr", {"type": "array", "items": {"type": "string"}}),
+                  ("Int", {"type": "integer"}), ("Obj", {"type": "object", "properties": {"alpha": {"type": "string"}}})]
+
+    def untyped_ref_composition(self):
+        """a `$ref` to a definition WITHOUT `type` (OpenAPI style) next to members that add or contradict a type:
+        {type: object}, {type: string}, {type: [object, null]}, a `$ref` to a string / array / integer / object
+        definition.  Three members mostly (the reference-preservation test `roughly` runs after the first pair)."""
+        rnd = self.rnd
+        self.tags.add("untyped-ref")
+        kind, ud = self.pick(self.UNTYPED_DEFS)
+        self.tags.add("untyped-ref-" + kind)
+        defs = {"Base": json.loads(json.dumps(ud))}
+        members = [{"$ref": "#/definitions/Base"}]
+        pool = [{"type": "object"}, {"type": "string"}, {"type": "string"}, {"type": ["object", "null"]},
+                {"type": ["string", "object"]}, "ref", "ref", "ref", {"type": "object", "properties": {"gamma": {"type": "boolean"}}}]
+        n = self.pick([3, 3, 3, 4, 2])
+        if kind == "enum":
+            # an untyped enum of strings next to an OBJECT type leaves `type: object, enum: []` (finding C09-F9), which
+            # typify then turns into a constrained newtype over a struct that does not compile (curated witness
+            # f9-enum-emptied-top-level): the random stream pairs it with string types only
+            pool = [{"type": "string"}, {"type": ["string", "null"]}, {"type": ["string", "integer"]}]
+            while len(members) < n:
+                members.append(json.loads(json.dumps(self.pick(pool))))
+            rnd.shuffle(members)
+            return {"defs": defs, "branches": members, "tags": sorted(self.tags)}
+        if rnd.random() < 0.7:
+            members.append({"type": "object"})
+        while len(members) < n:
+            m = self.pick(pool)
+            if m == "ref":
+                nm, td = self.pick(self.TYPED_DEFS)
+                defs[nm] = json.loads(json.dumps(td))
+                m = {"$ref": "#/definitions/" + nm}
+                self.tags.add("untyped-ref-with-typed-ref")
+            members.append(json.loads(json.dumps(m)))
+        rnd.shuffle(members)
+        return {"defs": defs, "branches": members, "tags": sorted(self.tags)}
 
     def scalar_composition(self, n):
         """type / enum restrictions and array item schemas at the top level."""
@@ -1032,6 +1082,54 @@ def run(ctx):
     else:
         ctx.oblige("Algo/Merge.v present", False, "model file missing")
 
+    # ---- (a5) the reference-preservation test `roughly` (merge.rs Roughly): merge_all on [$ref D, M] and [M, $ref D]
+    #      for a table of definitions D (typed and UNTYPED) x members M; real vs model; the result is the bare
+    #      reference exactly when the merged schema is `roughly` the referenced one
+    if have_model:
+        try:
+            rdefs = {"UProps": {"properties": {"alpha": {"type": "string"}}},
+                     "UReq": {"required": ["alpha"]},
+                     "UAp": {"additionalProperties": {"type": "string"}},
+                     "UEnum": {"enum": ["red", "green"]},
+                     "UBounds": {"minProperties": 1},
+                     "TObj": {"type": "object", "properties": {"alpha": {"type": "string"}}},
+                     "TObjReq": {"type": "object", "properties": {"alpha": {"type": "string"}}, "required": ["alpha"]},
+                     "TClosed": {"type": "object", "properties": {"alpha": {"type": "string"}}, "additionalProperties": False},
+                     "TStr": {"type": "string"}, "TStrEnum": {"type": "string", "enum": ["red", "green"]},
+                     "TNullable": {"type": ["object", "null"], "properties": {"alpha": {"type": "string"}}},
+                     "TArr": {"type": "array", "items": {"type": "string"}},
+                     "TArrFixed": {"type": "array", "items": {"type": "string"}, "minItems": 2, "maxItems": 2}}
+            rmembers = [{}, True, {"type": "object"}, {"type": "string"}, {"type": ["object", "null"]}, {"type": ["null", "object"]},
+                        {"type": "array"}, {"properties": {"alpha": {"type": "string"}}}, {"properties": {"alpha": {}}},
+                        {"required": ["alpha"]}, {"type": "object", "required": ["alpha"]}, {"additionalProperties": True},
+                        {"additionalProperties": {"type": "string"}}, {"minProperties": 1}, {"enum": ["red", "green"]},
+                        {"enum": ["red", "green", "blue"]}, {"type": "array", "items": {"type": "string"}},
+                        {"type": "array", "maxItems": 2}, {"type": "array", "uniqueItems": True}]
+            rjobs = []
+            for dn in sorted(rdefs):
+                for mbr in rmembers:
+                    rjobs.append((rdefs, [{"$ref": "#/definitions/" + dn}, mbr]))
+                    rjobs.append((rdefs, [mbr, {"$ref": "#/definitions/" + dn}]))
+            rreal = [real_canon(r) for r in vlib.run_bin("c09", [{"op": "merge", "schemas": sc, "defs": d} for d, sc in rjobs])]
+            rmod = model_merge("c09rg-" + ctx.tier, rjobs)
+            rbad, kept = [], 0
+            for (d, sc), a, b in zip(rjobs, rreal, rmod):
+                b2 = b if b[0] != "ok" else ("ok", canon_schema(strip_frac(b[1])))
+                if emul == "roughly-keeps-untyped" and a[0] == "ok" and a[1].get("type") == ["object"] and \
+                        any(isinstance(x, dict) and x.get("$ref", "").split("/")[-1].startswith("U") for x in sc) and \
+                        {"type": "object"} in sc:
+                    a = ("ok", {"$ref": [x for x in sc if isinstance(x, dict) and "$ref" in x][0]["$ref"]})
+                if a[0] == "ok" and isinstance(a[1], dict) and set(a[1]) == {"$ref"}:
+                    kept += 1
+                if b[0] != "unsupp" and a != b2:
+                    rbad.append({"schemas": sc, "real": a, "model": b2})
+            ctx.coverage["roughly_table"] = {"pairs": len(rjobs), "bare_reference_kept": kept, "mismatches": len(rbad)}
+            ctx.oblige("correspondence K1 (Roughly): merge_all on %d [$ref D, M] / [M, $ref D] pairs (13 typed and untyped "
+                       "definitions x 19 members): real = model; the bare reference is kept in %d of them"
+                       % (len(rjobs), kept), not rbad, json.dumps(rbad[:3], default=str)[:2000])
+        except Exception as e:  # noqa
+            ctx.oblige("roughly table evaluates", False, str(e)[-2000:])
+
     # ---- (a3) the reduced validator: exhaustive table against the model and against draft-07
     vt_bad, vt_diffs, vt_known = [], [], []
     if have_model:
@@ -1091,6 +1189,56 @@ def run(ctx):
                        merged_schema=raw, level="merge: the instance is valid against every operand but not against "
                                                 "the schema verif::merge_all returned")
     ctx.coverage["merge_level_valid_instance_x_merged_schema_pairs"] = n_mpairs
+
+    # ---- (a4) order independence at the MERGE level (C09_merge_all_perm_equiv on real outputs): the schemas
+    #      verif::merge_all returns for the permutations of one composition must have the same instance vector
+    #      over ALL candidates (never = nothing valid); in particular an unsatisfiable allOf must not become a
+    #      permissive schema for some orders
+    pbatches, pmeta = [], []
+    for ci, c in enumerate(comps):
+        distinct = {}
+        for pi in c["merge"]:
+            kind = c["merge"][pi][0]
+            if kind == "never":
+                distinct.setdefault("never", pi)
+            elif kind == "ok":
+                raw = raw_merge[(ci, pi)]["schema"]
+                if emul == "perm-keeps-ref" and pi == max(c["merge"]) and len(c["branches"]) >= 3:
+                    raw = True
+                distinct.setdefault(json.dumps(raw, sort_keys=True), pi)
+        if len(distinct) < 2:
+            continue
+        for key, pi in distinct.items():
+            if key != "never":
+                pbatches.append(({"definitions": c["defs"]}, [(json.loads(key), v) for v, _ in cands_all[ci]]))
+                pmeta.append((ci, pi))
+    pres = oracle.classify(pbatches) if pbatches else []
+    vecs = collections.defaultdict(dict)
+    for (ci, pi), res in zip(pmeta, pres):
+        vecs[ci][pi] = res
+    n_pvec = 0
+    for ci, c in enumerate(comps):
+        by = dict(vecs.get(ci, {}))
+        nevers = [pi for pi in c["merge"] if c["merge"][pi][0] == "never"]
+        if nevers and by:
+            by[nevers[0]] = [False] * len(cands_all[ci])
+        if len(by) < 2:
+            continue
+        n_pvec += 1
+        ref = min(by)
+        for pi in sorted(by):
+            if pi == ref:
+                continue
+            diff = [i for i, (x, y) in enumerate(zip(by[ref], by[pi])) if x is not None and y is not None and x != y]
+            if diff:
+                i = diff[0]
+                report("permutation-changes-merged-instance-set", c, permutation_1=c["perms"][ref],
+                       permutation_2=c["perms"][pi], instance=cands_all[ci][i][0],
+                       merged_1=c["merge"][ref], merged_2=c["merge"][pi], valid_for_merged_1=by[ref][i],
+                       valid_for_merged_2=by[pi][i], oracle_valid_for_allOf=verd_all[ci][i], level="merge-perm",
+                       n_differing_candidates=len(diff))
+                break
+    ctx.coverage["merge_level_compositions_with_several_distinct_merged_schemas"] = n_pvec
 
     # ---- (b) world: one document per composition with the permutations that convert
     wcases, wmap = [], []
@@ -1297,11 +1445,16 @@ def run(ctx):
                json.dumps([v for v in unlisted if v["kind"] in ("valid-instance-rejected", "satisfiable-but-never")][:2])[:2000])
     ctx.oblige("merged-set semantics (merge level): every candidate / operand literal valid against all operands is valid "
                "against the schema verif::merge_all returned, every permutation (%d pairs)" % n_mpairs,
-               not [v for v in unlisted if v.get("level")], json.dumps([v for v in unlisted if v.get("level")][:2], default=str)[:2000])
+               not [v for v in unlisted if v.get("level") and v.get("level") != "merge-perm"],
+               json.dumps([v for v in unlisted if v.get("level") and v.get("level") != "merge-perm"][:2], default=str)[:2000])
+    ctx.oblige("order independence (merge level): the schemas verif::merge_all returns for the permutations of a composition "
+               "have the same instance vector over all candidates (%d compositions with several distinct merged schemas)" % n_pvec,
+               not [v for v in unlisted if v.get("level") == "merge-perm"],
+               json.dumps([v for v in unlisted if v.get("level") == "merge-perm"][:2], default=str)[:2500])
     ctx.oblige("direct evaluation: accept vectors, round trips and accept/reject/panic outcome equal across all permutations "
                "(%d permutations of %d compositions)" % (len(idx), len(comps)),
-               not [v for v in unlisted if v["kind"].startswith(("permutation", "order"))],
-               json.dumps([v for v in unlisted if v["kind"].startswith(("permutation", "order"))][:2])[:2000])
+               not [v for v in unlisted if v["kind"].startswith(("permutation", "order")) and v.get("level") != "merge-perm"],
+               json.dumps([v for v in unlisted if v["kind"].startswith(("permutation", "order")) and v.get("level") != "merge-perm"][:2])[:2000])
     ctx.oblige("direct evaluation: merge reports never and no candidate valid => empty enum, every candidate rejected (%d)"
                % n_never_types,
                not [v for v in unlisted if v["kind"] in ("merge-never-but-type-not-empty-enum", "never-type-accepts")],
